@@ -20,8 +20,8 @@ import time
 ROOT = os.path.dirname(os.path.abspath(__file__))
 SEEDED = os.path.join(ROOT, "seeded")
 REPO = "/repo"
-SCRATCH = "/tmp/seedverify"
-SCRATCH_TARGET = "/tmp/seedverify-target"
+SCRATCH = os.environ.get("SEED_SCRATCH", "/tmp/seedverify")  # override to import several changes at once
+SCRATCH_TARGET = SCRATCH + "-target"
 ENV = dict(os.environ, CARGO_NET_OFFLINE="true", CARGO_TERM_COLOR="never")
 
 
